@@ -69,7 +69,7 @@ def run(ctx, obls):
                        "all_failures": fails.get(o.id, [])})
         else:
             # the test binary died, timed out or panicked outside a recorded failure
-            pm = re.search(r"thread '%s' panicked at ([^\n]*)\n([^\n]*)" % re.escape(name), out)
+            pm = re.search(r"thread '%s'(?: \(\d+\))? panicked at ([^\n]*)\n([^\n]*)" % re.escape(name), out)
             if rc == -9:
                 oc.update({"status": "undecided", "reason": "engine X timeout"})
             elif pm:
